@@ -46,7 +46,7 @@ W0(T) ==
     [st |-> [i \in 1..Len(T.P) |-> "new"], oh |-> <<>>, ps |-> PInit(Len(T.W)),
      lp |-> [i \in 1..Len(T.P) |-> 0], ov |-> OvInit(Len(T.W)),
      enq |-> 0, deq |-> 0, nrej |-> 0, nS |-> 0, sunk |-> {}, tl |-> 0, lim |-> T.lim0,
-     mdl |-> TRUE,     \* the Policies machine still follows the observation
+     mdl |-> T.nomodel = 0,   \* the Policies machine still follows the observation (CoDel/RED/AdaptiveLIFO: none)
      obs |-> TRUE]     \* the held list reconstructed from the observation is reliable
 
 TInit == /\ TLCSet(1, JsonDeserialize(IOEnv.TRACE_FILE))
@@ -85,7 +85,7 @@ Apply(T, ww, r) ==
             mv == IF ~pm.acc THEN "MODEL:push_accepted_model_refuses"
                   ELSE IF Len(pm.st.h) # d THEN "MODEL:depth" ELSE ""
         IN Out([w0 EXCEPT !.st[i] = "waiting", !.oh = Append(@, i), !.enq = @ + 1,
-                          !.ps = IF pm.acc THEN pm.st ELSE @,
+                          !.ps = IF ww.mdl /\ pm.acc THEN pm.st ELSE @,
                           !.ov = IF Flowed(T) THEN OvPush(@, Len(T.W), T.F, T.F[i], ww.oh) ELSE @,
                           !.mdl = @ /\ mv = ""], pv, Mdl(ww, mv))
       [] op = "rej" ->
@@ -96,7 +96,7 @@ Apply(T, ww, r) ==
                          IF ~CapacityOK(d, T.rcap) THEN "PROP:capacity" ELSE "")
             mv == IF pm.acc THEN "MODEL:push_refused_model_accepts" ELSE ""
         IN Out([w0 EXCEPT !.st[i] = "rejected", !.nrej = @ + 1,
-                          !.ps = IF pm.acc THEN @ ELSE pm.st, !.mdl = @ /\ mv = ""], pv, Mdl(ww, mv))
+                          !.ps = IF ww.mdl /\ ~pm.acc THEN pm.st ELSE @, !.mdl = @ /\ mv = ""], pv, Mdl(ww, mv))
       [] op = "pop" ->
         LET ex == Expired(T, ww, t, i)
             rest == (SeqSet(ww.oh) \ ex) \ {i}
@@ -119,7 +119,7 @@ Apply(T, ww, r) ==
                                                         ELSE IF j \in ex THEN "rejected" ELSE ww.st[j]],
                           !.oh = oh1, !.ov = ov1, !.deq = @ + 1, !.nrej = @ + Cardinality(ex),
                           !.lp[i] = lm, !.obs = @ /\ Len(oh1) = d,
-                          !.ps = IF mv = "" THEN pm.st ELSE @, !.mdl = @ /\ mv = ""], pv, Mdl(ww, mv))
+                          !.ps = IF ww.mdl /\ mv = "" THEN pm.st ELSE @, !.mdl = @ /\ mv = ""], pv, Mdl(ww, mv))
       [] op = "pop0" ->
         LET ex == Expired(T, ww, t, 0)
             oh1 == SelectSeq(ww.oh, LAMBDA y : y \notin ex)
@@ -131,7 +131,7 @@ Apply(T, ww, r) ==
                   ELSE IF pm.st.x # x THEN "MODEL:drop_count" ELSE ""
         IN Out([w0 EXCEPT !.st = [j \in DOMAIN ww.st |-> IF j \in ex THEN "rejected" ELSE ww.st[j]],
                           !.oh = oh1, !.nrej = @ + Cardinality(ex), !.obs = @ /\ Len(oh1) = d,
-                          !.ps = IF mv = "" THEN pm.st ELSE @, !.mdl = @ /\ mv = ""], pv, Mdl(ww, mv))
+                          !.ps = IF ww.mdl /\ mv = "" THEN pm.st ELSE @, !.mdl = @ /\ mv = ""], pv, Mdl(ww, mv))
       [] op = "sta" ->
         LET from == ww.st[i]
             lpi == IF from = "transit" THEN ww.lp[i] ELSE lm
